@@ -40,8 +40,9 @@ def load_mutants():
             for c in meta.get('caught_by_rules', []):
                 rule_id, _, inst = c.partition('/')
                 exp.append([rule_id, inst])
+            # a seeded change must make the check of the property it breaks fail (whichever rule of that property fires)
             ms.append({'id': 'seed:' + name, 'props': sorted(set([meta['breaks_property']] + meta.get('properties_reporting', []))),
-                       'patch': os.path.join(sd, name, 'patch.diff'), 'expect': exp[:1] or [['*', '*']]})
+                       'patch': os.path.join(sd, name, 'patch.diff'), 'expect': [['*', '*']], 'expect_prop': meta['breaks_property']})
     return ms
 
 
@@ -87,7 +88,12 @@ def run_mutant(mut, feature_set='default', cmdline=None):
         facts = F.Facts(fd)
         ctx = core.Ctx(facts, feature_set)
         only = set(r for r, _ in mut['expect']) if mut.get('expect') else None
-        core.run_rules(ctx, only=only)
+        if mut.get('expect_prop'):
+            core.run_rules(ctx, prop=mut['expect_prop'])
+            ctx.results[:] = [r for r in ctx.results if mut['expect_prop'] in (r.props if r.props is not None else
+                              [p for rd in core.RULES if rd.id == r.rule for p in rd.props])]
+        else:
+            core.run_rules(ctx, only=only)
         bad = [r for r in ctx.results if r.status in ('violation', 'shape')]
         if mut.get('benign'):
             known, _ = core.load_known()
@@ -97,7 +103,7 @@ def run_mutant(mut, feature_set='default', cmdline=None):
                     'reports': ['%s %s/%s: %s' % (r.status, r.rule, r.instance, r.msg) for r in bad][:6]}
         fired = []
         for rule_id, inst in mut.get('expect', []):
-            hit = [r for r in bad if r.rule == rule_id and (inst in r.instance or inst == '*')]
+            hit = [r for r in bad if (r.rule == rule_id or rule_id == '*') and (inst in r.instance or inst == '*')]
             fired.append(bool(hit))
         return {'id': mut['id'], 'status': 'fired' if fired and all(fired) else 'missed',
                 'reports': ['%s %s/%s: %s' % (r.status, r.rule, r.instance, r.msg) for r in bad][:6]}
